@@ -255,6 +255,14 @@ func Election(s hist.State) (elected map[string]int64, boundaryTie map[string]bo
 func C10Converged(s hist.State, vals []proto.Val, h int64) []Finding {
 	elected, tie := Election(s)
 	var out []Finding
+	if len(elected) == 0 && len(tie) == 0 {
+		// nobody is electable: the set cannot follow the election, it may never be emptied (first clause of
+		// the statement; Tendermint's acceptance of every update is checked block by block)
+		if len(vals) == 0 {
+			out = append(out, Finding{"C10", "C10/not-converged/empty-set", fmt.Sprintf("height %d: Tendermint's validator set is empty", h)})
+		}
+		return append(out, Finding{"COUNT", "observed:convergence-with-empty-election", ""})
+	}
 	tm := map[string]int64{}
 	for _, v := range vals {
 		// Tendermint's amino-encoded ed25519 pubkey: 5 prefix bytes + 32 key bytes
